@@ -11,7 +11,7 @@ from vlib.verdict import Case
 PROPERTY = 'C15'
 MANIFEST = {
  'level_text': 'Lean 4 theorems, kernel-checked, about a model of the configuration registry, for all inputs: decoder(encoder(s)) = s and safeEval(repr(s)) = s for every string; String, StringSurroundedBySpaces, StringWithSpaceOnRight and NormalizedString (value level and through the wrapped continuation lines of the file; normalize idempotent) reload to the stored value for every string; Boolean and the Integer family reload to the saved value; OnlySomeStrings (tables of the conf.py subclasses extracted), guarded String validators, Json, the Float family and Regexp reload under stated contracts of their engines (parameters); space/comma separated lists reload for every list setValue accepts, the empty list included (list_roundtrip, after the fix: items the list syntax could not read back are refused); whatever registry.close writes for reader-safe names — header, help blocks, the "# Default value" line, one line per value — open_registry reads back with exactly the saved texts (file_always_loads); END TO END: a value tree in normal form (general / network / channel / network+channel levels, _wasSet flags, unset network nodes kept alive by a set channel) saved, read by a fresh process and rebuilt by the start-up registration loop is the same tree (save_load_roundtrip under the explicit Storable predicate, counter-example outside it); a rejected set/setValue at any level leaves every existing value and _wasSet flag unchanged, also for a validator that looks at another variable (SocketTimeout vs drivers.poll), and every set/setValue of registry.py, conf.py and plugins/*/config.py is shown (extracted obligation) to finish its checks before it stores; an accepted assignment changes what getSpecific answers only for probes of that network/channel; unset specific values answer the new general value; Config reset network/channel give the inherited value; lazy re-reading after open_registry in the running process never touches a node assigned since and is idempotent on what was saved; unescape(escape(n)) = n and split(join(ns)) = ns for every name list (after the fix of the escape-aware split); int() is modelled for every text incl. Unicode decimal digits; the surface syntax of m/.../ regexps (perlReToPythonRe) is modelled with only the re engine a parameter; a flush interleaved with operations of other threads is modelled (flush_quiet, counter-example = the one known finding C15-flush-interleaved-reset). Constants, tables and inventories are regenerated from /repo on every run and guarded by table lemmas; the model is tied to src/registry.py, conf.py and the Config plugin by a differential run (values, texts, hostile files, whole files, textwrap, name lists, validators, histories on a real tree incl. in-process re-reads, histories through the live Config plugin, a reject-atomicity sweep over every registered variable) that also evaluates the property statement on the implementation.',
- 'level_note': 'Trusted: Lean kernel (axioms propext/Classical.choice/Quot.sound only); harness/extractors/registry.py (incl. the AST shape test "checks before store"); the correspondence harness (generator quality bounds what it sees). Parameters of the model: str.isprintable on non-ASCII characters (theorems hold for every such predicate; instantiated with the real one per case); textwrap.wrap of help texts (lines taken from the real function; NormalizedString wrapping itself is modelled); the predicates of the guarded validators (isNick, isUserHostmask, isIP, template regexp), json.loads/dumps, float()/repr(), perlReToPythonRe — each with the contract stated in its theorem. Modelled: unicode_escape encoder/decoder, repr(str), safeEval on a single plain string literal, String family set/setValue/__str__/serialize incl. NormalizedString word runs and line filling, Boolean, Integer/NonNegative/Positive, SocketTimeout, Space/Comma separated lists, OnlySomeStrings + conf tables, ValidPrefixChars, ValidQuotes, close() file layout, open_registry, escape/unescape/split/join, value tree (_wasSet, _setValue(inherited), _makeChild incl. cache lookup, getSpecific, Config set/reset paths, getValues order, registerChannelValue/registerNetworkValue start-up), lazy re-read layer (__call__ of stale nodes, str() calling the parent, save calling every listed node). NormalizedString is proved through the file incl. wrapping via a word-level form of textwrap.wrap (wrapWords, compared with the real textwrap and with the chunk-level model wrapText on every run; only "lines = the words regrouped in order" is used); end-to-end theorem is for trees in normal form (children sorted, unset leaves pruned) of the channel, network and global kinds, every class of the model (NormalizedString with its continuation lines; save_load_global excepts it). Outside the model: \\N{name} escapes, lone surrogates, texts handed to safeEval that are not one plain literal, regexps with a non-ASCII or backslash delimiter, float() parsing/printing (parameter).',
+ 'level_note': 'Trusted: Lean kernel (axioms propext/Classical.choice/Quot.sound only); harness/extractors/registry.py (incl. the AST shape test "checks before store"); the correspondence harness (generator quality bounds what it sees). Parameters of the model: str.isprintable on non-ASCII characters (theorems hold for every such predicate; instantiated with the real one per case); textwrap.wrap of help texts (lines taken from the real function; NormalizedString wrapping itself is modelled); the predicates of the guarded validators (isNick, isUserHostmask, isIP, template regexp), json.loads/dumps, float()/repr(), perlReToPythonRe — each with the contract stated in its theorem. Modelled: unicode_escape encoder/decoder, repr(str), safeEval on a single plain string literal, String family set/setValue/__str__/serialize incl. NormalizedString word runs and line filling, Boolean, Integer/NonNegative/Positive, SocketTimeout, Space/Comma separated lists, OnlySomeStrings + conf tables, ValidPrefixChars, ValidQuotes, close() file layout, open_registry, escape/unescape/split/join, value tree (_wasSet, _setValue(inherited), _makeChild incl. cache lookup, getSpecific, Config set/reset paths, getValues order, registerChannelValue/registerNetworkValue start-up), lazy re-read layer (__call__ of stale nodes, str() calling the parent, save calling every listed node). NormalizedString is proved through the file incl. wrapping via a word-level form of textwrap.wrap (wrapWords); the chunk-level model of textwrap (_split_chunks/_wrap_chunks: wrapText) is PROVED equal to it on every text of blank-free words with single blanks and for every width (wrap_models_agree), so serialize is the chunk-level algorithm on every value (normalized_serialize_is_textwrap); both are also compared with the real textwrap on every run; end-to-end theorem is for trees in normal form (children sorted, unset leaves pruned) of the channel, network and global kinds, every class of the model (NormalizedString with its continuation lines; save_load_global excepts it). Outside the model: \\N{name} escapes, lone surrogates, texts handed to safeEval that are not one plain literal, regexps with a non-ASCII or backslash delimiter, float() parsing/printing (parameter).',
  'technique': 'Lean 4 proof (induction over strings / lists / tree states / start-up loop, invariants) + table and inventory extraction + differential correspondence',
  'design_ref': 'DESIGN.md §6 C15',
 }
@@ -26,7 +26,7 @@ THEOREMS = ['C15.quotes_table_ok', 'C15.bool_table_ok', 'C15.lists_table_ok', 'C
             'C15.socket_timeout_verdict', 'C15.socket_timeout_reject_atomic',
             'C15.validators_check_before_store', 'C15.guarded_verdict', 'C15.guarded_string_roundtrip', 'C15.only_some_strings_roundtrip',
             'C15.json_roundtrip', 'C15.float_roundtrip', 'C15.regexp_roundtrip', 'C15.regexp_text_roundtrip',
-            'C15.nw_table_ok', 'C15.normalized_value_roundtrip', 'C15.normalize_idempotent', 'C15.normalized_file_roundtrip',
+            'C15.nw_table_ok', 'C15.normalized_value_roundtrip', 'C15.normalize_idempotent', 'C15.normalized_file_roundtrip', 'C15.wrap_models_agree', 'C15.normalized_serialize_is_textwrap',
             'C15.call_fresh_noop', 'C15.call_reread_same', 'C15.flush_quiet', 'C15.flush_interleaved_counterexample',
             'C15.save_load_roundtrip', 'C15.save_load_global', 'C15.save_load_counterexample', 'C15.rt_string', 'C15.rt_normalized', 'C15.rt_bool', 'C15.rt_int']
 TRUSTED = ['Lean 4.33.0 kernel; axioms ⊆ {propext, Classical.choice, Quot.sound}',
